@@ -101,16 +101,24 @@ def dbn_case(draw, min_vars=1):
     iface = {u for u, v in t["inter"]}
     # query: within one slice (slice 0, the last slice or any single slice: the regions in which the engine is held to
     # exactness beyond slice 0) or anywhere
-    qmode = draw(st.sampled_from(["slice0", "last", "any", "one_slice"]))
+    qmode = draw(st.sampled_from(["slice0", "last", "slice0", "any", "one_slice"]))
     qslice = {"slice0": 0, "last": T, "one_slice": draw(st.integers(0, T)), "any": None}[qmode]
     pool = [v for v in nodes if qslice is None or v[1] == qslice]
     order = list(draw(st.permutations(pool)))
     nq = draw(st.integers(1, min(3, len(order))))
     query = order[:nq]
     rest = [v for v in draw(st.permutations(nodes)) if v not in query]
-    mode = draw(st.sampled_from(["sparse", "some", "many", "sparse", "none"]))
+    mode = draw(st.sampled_from(["sparse", "late_only", "some", "many", "sparse", "none"]))
     if mode == "none":
         ev_vars = []
+    elif mode == "late_only":
+        # evidence in the last slice (or the last two) only: with a query in slice 0 the backward sweep has to carry it
+        # across slices that have no evidence of their own
+        late = [T] if T == 0 or draw(st.booleans()) else [T - 1, T]
+        ev_vars = []
+        for sl in late:
+            cand = [v for v in rest if v[1] == sl]
+            ev_vars.extend(cand[: draw(st.integers(1, 2))])
     elif mode == "sparse":
         # evidence in a random subset of the slices (gaps included), optionally on non-interface variables only
         leaf_only = draw(st.booleans())
